@@ -40,7 +40,7 @@ func composePlugins(rng *RNG, n int) []composePlugin {
 	return out
 }
 
-func composeSchemas(plugins []composePlugin, deepSlot bool) ast.Schemas {
+func composeSchemas(plugins []composePlugin, deepSlot bool, entrypoint string) ast.Schemas {
 	dashboard := ast.NewSchema("dashboard", ast.SchemaMeta{})
 	fieldConfig := ast.NewStructField("fieldConfig", ast.Any())
 	if deepSlot {
@@ -72,6 +72,10 @@ func composeSchemas(plugins []composePlugin, deepSlot bool) ast.Schemas {
 				fields = append(fields, ast.NewStructField(f, t))
 			}
 			s.AddObject(ast.NewObject(p.pkg, obj, ast.NewStruct(fields...)))
+		}
+		if entrypoint != "" {
+			s.EntryPoint = entrypoint
+			s.EntryPointType = ast.NewRef(p.pkg, entrypoint)
 		}
 		schemas = append(schemas, s)
 	}
@@ -109,13 +113,30 @@ func checkC17Compose(r *Run) {
 		if c%3 == 2 {
 			composedName = "PanelBuilder"
 		}
-		schemas := composeSchemas(plugins, deep)
 		cmap := map[string]string{"Options": "options", "FieldConfig": "fieldConfig"}
 		if deep {
 			cmap["FieldConfig"] = "fieldConfig.defaults.custom"
 		}
 		if c%5 == 4 {
 			delete(cmap, "FieldConfig") // a single composed builder per plugin
+		}
+		// every third case names the Options object through the schema's (struct) entry point instead
+		entrypoint := ""
+		if c%3 == 1 {
+			entrypoint = "Options"
+			cmap["__schema_entrypoint"] = cmap["Options"]
+			delete(cmap, "Options")
+		}
+		schemas := composeSchemas(plugins, deep, entrypoint)
+		// eff: object → path its builder is composed under; direct: objects the map names themselves
+		eff, direct := map[string]string{}, map[string]bool{}
+		for k, v := range cmap {
+			if k == "__schema_entrypoint" {
+				eff[entrypoint] = v
+			} else {
+				eff[k] = v
+				direct[k] = true
+			}
 		}
 		lang := []string{"go", "typescript", "python", "java", "php"}[c%5]
 		var builders []ast.Builder
@@ -149,13 +170,16 @@ func checkC17Compose(r *Run) {
 		pv, _ := guard(func() { after, aerr = rewriter.ApplyTo(schemas, builders, lang) })
 		r.Eval()
 		replay := map[string]any{"veneers": sb.String(), "language": lang, "input_ir": mustJSON(schemas)}
-		ctx := fmt.Sprintf("[compose case %d, %s, %d plugins, deep=%v preserve=%v]", c, lang, len(plugins), deep, preserve)
+		ctx := fmt.Sprintf("[compose case %d, %s, %d plugins, deep=%v preserve=%v entrypoint=%q]", c, lang, len(plugins), deep, preserve, entrypoint)
 		if pv != nil || aerr != nil {
 			r.Violation("veneer/builder.compose/failed", fmt.Sprintf("the compose rule failed on plugin-shaped schemas: panic=%v err=%v %s", pv, aerr, ctx), replay)
 			continue
 		}
 		r.Distinct(sb.String() + mustJSON(schemas))
 		r.Count("rule/builder.compose", 1)
+		if entrypoint != "" {
+			r.Count("compose.struct_entrypoint_cases", 1)
+		}
 		for _, p := range wellTypedProblems(schemas, after) {
 			r.Violation("veneer/builder.compose/ill-typed/"+p.class, fmt.Sprintf("%s: %s %s", p.where, p.detail, ctx), replay)
 		}
@@ -216,7 +240,7 @@ func checkC17Compose(r *Run) {
 			for _, o := range cb.Options {
 				for ai, a := range o.Assignments {
 					ids := composePathIdents(a.Path)
-					for obj, under := range cmap {
+					for obj, under := range eff {
 						if !strings.HasPrefix(ids, under+".") {
 							continue
 						}
@@ -255,7 +279,7 @@ func checkC17Compose(r *Run) {
 					}
 				}
 			}
-			for obj := range cmap {
+			for obj := range eff {
 				orig := origOf(p.pkg, obj)
 				want := 0
 				if orig != nil {
@@ -264,7 +288,7 @@ func checkC17Compose(r *Run) {
 					}
 				}
 				if seenFromObj[obj] != want {
-					r.Violation("veneer/builder.compose/contract/options-lost", fmt.Sprintf("composed %s builder carries %d of the %d assignments of %s.%s under %q %s", p.pkg, seenFromObj[obj], want, p.pkg, obj, cmap[obj], ctx), replay)
+					r.Violation("veneer/builder.compose/contract/options-lost", fmt.Sprintf("composed %s builder carries %d of the %d assignments of %s.%s under %q %s", p.pkg, seenFromObj[obj], want, p.pkg, obj, eff[obj], ctx), replay)
 				}
 			}
 			got := 0
@@ -288,7 +312,7 @@ func checkC17Compose(r *Run) {
 						now = &after[i]
 					}
 				}
-				_, mapped := cmap[obj]
+				mapped := direct[obj] // an object composed through the entry point keeps its own builder
 				switch {
 				case (!mapped || preserve) && now == nil:
 					r.Violation("veneer/builder.compose/frame/builder-lost", fmt.Sprintf("builder %s.%s disappeared (mapped=%v, preserve_original_builders=%v) %s", p.pkg, obj, mapped, preserve, ctx), replay)
